@@ -69,6 +69,7 @@ type RuleIntent struct {
 	SrcIf   *uint8      `json:"srcif,omitempty"`
 	FTEID   *uint32     `json:"fteid,omitempty"`
 	FTEIDIP [4]byte     `json:"fteidip,omitempty"`
+	FTEID6  bool        `json:"fteid6,omitempty"` // dual-stack F-TEID: V4 and V6 flags, both addresses
 	UEIP    *[4]byte    `json:"ueip,omitempty"`
 	NetIns  string      `json:"ni,omitempty"`
 	SDFs    []SDFIntent `json:"sdf,omitempty"`
@@ -344,6 +345,11 @@ func (r *RuleIntent) pdiKids() []kid {
 	if r.FTEID != nil {
 		v := append([]byte{0x01}, u32b(*r.FTEID)...)
 		v = append(v, r.FTEIDIP[:]...)
+		if r.FTEID6 {
+			// TS 29.244 8.2.3: V4 | V6, the IPv4 address, then the IPv6 address
+			v[0] = 0x03
+			v = append(v, 0x20, 0x01, 0x0d, 0xb8, 0, 0, 0, 0, 0, 0, 0, 0, r.FTEIDIP[0], r.FTEIDIP[1], r.FTEIDIP[2], r.FTEIDIP[3])
+		}
 		pdi = append(pdi, kid{TLV{T: ieFTEID, V: v}, "fteid"})
 	}
 	if r.NetIns != "" {
